@@ -67,6 +67,8 @@ pub enum Rule {
     SortedRegex,
     Unique,
     UniqueRegex,
+    /// The key runs from the middle of the line to its end.
+    UniqueRegexEol,
     Pattern,
     LineCount,
     Lua,
@@ -74,14 +76,14 @@ pub enum Rule {
 }
 
 impl Rule {
-    const ALL: [Rule; 8] = [Rule::Sorted, Rule::SortedRegex, Rule::Unique, Rule::UniqueRegex, Rule::Pattern, Rule::LineCount, Rule::Lua, Rule::Affects];
+    const ALL: [Rule; 9] = [Rule::Sorted, Rule::SortedRegex, Rule::Unique, Rule::UniqueRegex, Rule::UniqueRegexEol, Rule::Pattern, Rule::LineCount, Rule::Lua, Rule::Affects];
     fn key_range(self) -> bool {
-        matches!(self, Rule::Sorted | Rule::SortedRegex | Rule::Unique | Rule::UniqueRegex | Rule::Pattern)
+        matches!(self, Rule::Sorted | Rule::SortedRegex | Rule::Unique | Rule::UniqueRegex | Rule::UniqueRegexEol | Rule::Pattern)
     }
     fn code(self) -> &'static str {
         match self {
             Rule::Sorted | Rule::SortedRegex => "keep-sorted",
-            Rule::Unique | Rule::UniqueRegex => "keep-unique",
+            Rule::Unique | Rule::UniqueRegex | Rule::UniqueRegexEol => "keep-unique",
             Rule::Pattern => "line-pattern",
             Rule::LineCount => "line-count",
             Rule::Lua => "check-lua",
@@ -147,7 +149,7 @@ pub fn applicable(c: &Case) -> bool {
     if c.host == Host::MdHtml && c.same_line {
         return false;
     }
-    if c.host == Host::MdLink && matches!(c.rule, Rule::SortedRegex | Rule::UniqueRegex) {
+    if c.host == Host::MdLink && matches!(c.rule, Rule::SortedRegex | Rule::UniqueRegex | Rule::UniqueRegexEol) {
         return false; // a Markdown title delimited by parentheses cannot hold the group's parentheses
     }
     if !c.rule.key_range() && c.position != 0 {
@@ -204,7 +206,7 @@ pub fn build(c: &Case) -> Built {
         // Keys ascend (m1, m2, …) until the offending one.
         let plain_key = if offending {
             match c.rule {
-                Rule::Unique | Rule::UniqueRegex => "m1".to_string(),
+                Rule::Unique | Rule::UniqueRegex | Rule::UniqueRegexEol => "m1".to_string(),
                 Rule::Pattern => "a0%".to_string(),
                 _ => "a0".to_string(),
             }
@@ -212,10 +214,11 @@ pub fn build(c: &Case) -> Built {
             format!("m{}", i + 1)
         };
         let (line, range) = match c.rule {
-            Rule::SortedRegex | Rule::UniqueRegex => {
+            Rule::SortedRegex | Rule::UniqueRegex | Rule::UniqueRegexEol => {
                 let prefix = if c.multibyte { "é pre k" } else { "pre k" };
                 let body = format!("{prefix}{plain_key} post");
-                (body, (prefix.len(), prefix.len() + plain_key.len()))
+                let end = if c.rule == Rule::UniqueRegexEol { body.len() } else { prefix.len() + plain_key.len() };
+                (body, (prefix.len(), end))
             }
             _ => {
                 let body = c.host.content(&plain_key);
@@ -239,8 +242,9 @@ pub fn build(c: &Case) -> Built {
         text.push_str(line);
         if let Some((a, b)) = range {
             key = Some((start + a, start + b));
-            // The second content line, when offending, carries trailing blanks (not part of the key).
-            if i == 1 {
+            // The second content line, when offending, carries trailing blanks (not part of the
+            // key, unless the key is whatever follows to the end of the line).
+            if i == 1 && c.rule != Rule::UniqueRegexEol {
                 text.push_str("  ");
             }
         }
@@ -268,7 +272,7 @@ fn check_case(c: &Case, cfg: Option<&Cfg>, sink: &Sink) {
         return;
     }
     // Sort/unique need a previous key: the offending key cannot be the first content line.
-    if matches!(c.rule, Rule::Sorted | Rule::SortedRegex | Rule::Unique | Rule::UniqueRegex) && c.position == 0 {
+    if matches!(c.rule, Rule::Sorted | Rule::SortedRegex | Rule::Unique | Rule::UniqueRegex | Rule::UniqueRegexEol) && c.position == 0 {
         return;
     }
     let built = build(c);
@@ -281,7 +285,7 @@ fn check_case(c: &Case, cfg: Option<&Cfg>, sink: &Sink) {
     let diags: Vec<&Diag> = match &outcome {
         Outcome::Report { diags, blocks } => {
             if blocks.len() != 1 {
-                sink.machinery(describe(&format!("scaffold yields {} blocks", blocks.len())));
+                sink.fail(format!("C10:block-not-found-as-written:{:?}", c.host), describe(&format!("the file holds one block, {} were found", blocks.len())), input);
                 return;
             }
             diags.iter().filter(|d| d.code == c.rule.code()).collect()
@@ -375,13 +379,13 @@ fn kit_applicable(c: &KitCase) -> bool {
         return false;
     }
     let form = kit.forms[c.form as usize];
-    if form.kind == FormKind::Md && form.open == "(" && matches!(c.rule, Rule::SortedRegex | Rule::UniqueRegex) {
+    if form.kind == FormKind::Md && form.open == "(" && matches!(c.rule, Rule::SortedRegex | Rule::UniqueRegex | Rule::UniqueRegexEol) {
         return false; // a title delimited by parentheses cannot hold the group's parentheses
     }
     if !c.rule.key_range() && c.position != 0 {
         return false;
     }
-    if matches!(c.rule, Rule::Sorted | Rule::SortedRegex | Rule::Unique | Rule::UniqueRegex) && c.position == 0 {
+    if matches!(c.rule, Rule::Sorted | Rule::SortedRegex | Rule::Unique | Rule::UniqueRegex | Rule::UniqueRegexEol) && c.position == 0 {
         return false;
     }
     true
@@ -400,7 +404,7 @@ fn build_kit(c: &KitCase) -> Built {
         let offending = i == c.position as usize && c.rule.key_range();
         let plain_key = if offending {
             match c.rule {
-                Rule::Unique | Rule::UniqueRegex => "m1".to_string(),
+                Rule::Unique | Rule::UniqueRegex | Rule::UniqueRegexEol => "m1".to_string(),
                 Rule::Pattern => "a0%".to_string(),
                 _ => "a0".to_string(),
             }
@@ -408,10 +412,11 @@ fn build_kit(c: &KitCase) -> Built {
             format!("m{}", i + 1)
         };
         let (line, range) = match c.rule {
-            Rule::SortedRegex | Rule::UniqueRegex => {
+            Rule::SortedRegex | Rule::UniqueRegex | Rule::UniqueRegexEol => {
                 let line = kit_line(kit, &format!("é pre k{plain_key} post"));
                 let at = line.find(&format!("k{plain_key}")).expect("key") + 1;
-                (line, (at, at + plain_key.len()))
+                let end = if c.rule == Rule::UniqueRegexEol { line.len() } else { at + plain_key.len() };
+                (line, (at, end))
             }
             _ => {
                 let line = kit_line(kit, &plain_key);
@@ -421,7 +426,7 @@ fn build_kit(c: &KitCase) -> Built {
         };
         let start = r.offset();
         // The second content line, when offending, carries trailing blanks (not part of the key).
-        if offending && i == 1 { r.raw(&format!("{line}  ")) } else { r.raw(&line) }
+        if offending && i == 1 && c.rule != Rule::UniqueRegexEol { r.raw(&format!("{line}  ")) } else { r.raw(&line) }
         if offending {
             key = Some((start + range.0, start + range.1));
         }
@@ -437,6 +442,7 @@ fn rule_attrs(rule: Rule) -> String {
         Rule::SortedRegex => "keep-sorted keep-sorted-pattern=\"k(?P<value>[a-z]\\d)\"".to_string(),
         Rule::Unique => "keep-unique".to_string(),
         Rule::UniqueRegex => "keep-unique=\"k(?P<value>[a-z]\\d)\"".to_string(),
+        Rule::UniqueRegexEol => "keep-unique=\"k(?P<value>[a-z]\\d.*)\"".to_string(),
         Rule::Pattern => "line-pattern=\"^[^%]*$\"".to_string(),
         Rule::LineCount => "line-count=\"<1\"".to_string(),
         Rule::Lua => format!("check-lua=\"{}\"", lua_script()),
@@ -461,7 +467,7 @@ fn check_kit_case(c: &KitCase, sink: &Sink) {
     let diags: Vec<&Diag> = match &outcome {
         Outcome::Report { diags, blocks } => {
             if blocks.len() != 1 {
-                sink.machinery(describe(&format!("scaffold yields {} blocks", blocks.len())));
+                sink.fail(format!("C10:kit:block-not-found-as-written:{tagged}"), describe(&format!("the file holds one block, {} were found", blocks.len())), input);
                 return;
             }
             diags.iter().filter(|d| d.code == c.rule.code()).collect()
